@@ -52,7 +52,12 @@ func H_C02_Tree() {
 	nl := &sbom.NodeList{}
 	for i := 0; i < n; i++ {
 		id := rt.NondetString("id")
-		rt.Assume(rt.StrPlain(id)) // unique, non-reserved identifiers (no "protobom-" prefix)
+		if i == 1 {
+			// one identifier is arbitrary text outside the reserved "protobom-" namespace; the others are plain words
+			rt.Assume(rt.And(id != "", rt.Not(rt.StrHasPrefix(id, "protobom-"))))
+		} else {
+			rt.Assume(rt.StrPlain(id))
+		}
 		idsList = append(idsList, id)
 		nl.Nodes = append(nl.Nodes, &sbom.Node{Id: id, Name: "name", Version: "1"})
 	}
